@@ -37,3 +37,11 @@ Theorem h0_handle_event_total_refuted :
   h0_run false (h0_init false) [(0, [71; 69; 84; 13; 10], false)] = [H0Raised 51].
 Proof. exact h0_total_refuted. Qed.
 Print Assumptions h0_handle_event_total_refuted.
+
+(* The exit of H3Connection._get_or_create_stream never removes a stream that still waits for the encoder stream,
+   so the stream looked up by the resume loop (self._stream[stream_id], the KeyError site) is present whenever
+   the decoder reports it unblocked after a feed_header that raised StreamBlocked. *)
+Theorem blocked_stream_never_dropped : forall c sid x s,
+  find_stream x (c_streams c) = Some s -> s_blocked s = true -> has_stream (c_streams (pop_if_ended c sid)) x.
+Proof. exact pop_keeps_blocked. Qed.
+Print Assumptions blocked_stream_never_dropped.
